@@ -311,6 +311,36 @@ def check_scope_prefix(ctx):
     return n
 
 
+@rule('C08.R8', min_instances=2)
+def a_message_is_delivered_or_the_connection_dropped(ctx):
+    """send_reply of every interface (tcp, websocket): the dispatcher's books (activation, subscriptions) say that the
+    connection receives every update; a send that FAILS must therefore end the connection (running = False / re-raise) in
+    EVERY handler of the try around the socket send - a handler that only logs loses the update while the connection stays
+    activated (the client's last message is then no longer the node's cache)"""
+    m = ctx.m
+    n = 0
+    for q, f in sorted(m.functions.items()):
+        if f.name != 'send_reply' or not f.module.name.startswith('frappy.protocol.interface') or f.cls is None:
+            continue
+        sends = [c for c in calls_in(f.node) if call_attr(c) in ('sendall', 'send')]
+        if not sends:
+            continue
+        ctx.analysed(f)
+        for c in sends:
+            tries = [t for t, part in enclosing_tries(c) if part == 'body']
+            for t in tries:
+                for h in t.handlers:
+                    n += 1
+                    drops = any(isinstance(x, ast.Assign) and isinstance(x.value, ast.Constant) and x.value.value is False and
+                                any(isinstance(tt, ast.Attribute) and tt.attr == 'running' for tt in x.targets)
+                                for st in h.body for x in walk_local(st)) or handler_reraises(h)
+                    ctx.check(drops, f'{f.qualname}:handler `{src(h.type) if h.type else "bare"}` ends the connection', h, 'sets running = False (or re-raises)',
+                              f'the handler for `{src(h.type) if h.type else "everything"}` around `{src(c)}` leaves the connection running: the message is lost, '
+                              'but the connection stays in the activation / subscription sets - its client misses this update and believes a stale value', f)
+    if n < 2:
+        raise AnchorMissing('handlers around the socket send in send_reply not found')
+
+
 @rule('C08.R3c', min_instances=1)
 def scope_prefix_has_separator(ctx):
     """a prefix test over the subscription keys (module scope covers its module:parameter entries) uses `<module>:` with
